@@ -68,6 +68,21 @@ claimed = {
   ref="DESIGN.md §3 C15",
   bounds=["bytes fields 0..40 bytes, strings 0..1 bytes, repeated fields 0..2 elements (one possibly nil)", "one parent-fetch recursion level in the missing-parent path"],
   outside=["the protobuf wire decoder and gRPC internals; real collaborators (doubles answer nondeterministically, which over-approximates them)", "updateDag's receive loop needs a live gRPC stream: only its validate+map step is covered", "requests rejected AFTER all checks passed but after state changed are recorded as known findings (KNOWN_FINDINGS.json), partitioned by (handler, failing collaborator)"]),
+ "C04": dict(
+  text="(1) GetMessage of two transactions (one of fixed small shape with symbolic content, one of any shape with text fields 0..3 bytes) equal => time, amount and total text bound (field boundaries are NOT: known finding). (2) wallet.Helper.AddressToPubKey on addresses assembled from any version byte, any key length 0..34 and a matching or arbitrary checksum: accepted => 32-byte key, and two different accepted strings never carry the same key. (3) Helper.Verify under an honest key accepts only exactly the signed (message, digest, signature). (4) a vertex honestly signed by three real wallets (optionally countersigned, optionally self-addressed) and altered in any ONE of 17 signed fields is rejected by the real Vertex.verify; two multi-field alterations that pass are pinned as known findings.",
+  ref="DESIGN.md §3 C04", note=CR,
+  bounds=["text fields 0..3 bytes (t') / fixed 2+1+1+1 bytes (t); numeric fields full width", "addresses: version byte symbolic, key length 0..34, checksum genuine or 4 arbitrary bytes", "single-field mutations: 17 fields, new value arbitrary of the same length (text) / full width (numbers, hashes, signatures)"],
+  outside=["attacks on Ed25519 / SHA-256 themselves; base58 character-set errors", "mutations changing several fields at once beyond the two pinned classes", "admission beyond Vertex.verify (the ledger-level gates are C03/C09/C10)"]),
+ "C12": dict(
+  text="The real verifyGossipers, GossipVrx and gossipVertex with the real wallet.Helper: for every pair of list entries drawn from nine adversary-assembled templates (an honest peer's genuine signature for another item, its parent-fetch signature over the bare item hash, garbage digests of length 31..33 and garbage signatures, this node's own entry with the correct public digest and a garbage signature, the adversary's own valid entry, a signature by the adversary's key under an honest address, ...) an honest address is in the verified set iff that node really signed (its address, this item); the receiving node still processes the vertex and still forwards it to a peer that has not validly signed.",
+  ref="DESIGN.md §3 C12", note=CR,
+  bounds=["lists of 2 entries from 9 templates (81 lists), item hashes symbolic (32 bytes), 3 nodes (this node, an honest peer, the adversary)"],
+  outside=["lists longer than 2; networks (C11); honest signatures on messages other than gossiper entries and parent-fetch requests"]),
+ "C16": dict(
+  text="The real notary handlers over the real cache.Hippocampus (bigcache model), the real dataprovider.Cache and the real wallet.Helper, ledger double sealing each transaction at most once: every sequence of <=3 (quick) / <=4 (thorough) calls from a menu of 12 honest and dishonest calls (propose contract / transfer / with a foreign issuer key; confirm genuine / countersigned by a stranger; reject by receiver / by stranger / forged; challenge + waiting; replayed challenge with another key; unissued challenge; balance by owner then by another key and with a garbage signature), from the states 'nothing proposed' and 'contract awaiting', against a reference state machine: sealed only by an issuer-signed transfer, a receiver-countersigned confirm or a receiver-signed reject of an awaiting contract, at most once; refused calls leave the awaiting list unchanged; reads answer only for the owner's key and a server-issued challenge.",
+  ref="DESIGN.md §3 C16", note=CR,
+  bounds=["call sequences of length 3 (quick) / 4 (thorough) over 12 call kinds, 2 start states", "one contract and one transfer, three wallets"],
+  outside=["challenge expiry (no timer fires within a run); concurrent duplicate calls; the static balance request can be replayed by whoever captured a genuine one (observation)", "ledger behaviour (double implementing C03's contract)"]),
 }
 
 NA_DEFAULT = "check not built yet in this session; see DESIGN.md §6 build order"
